@@ -62,14 +62,11 @@ impl MatcherBuilder {
         &'builder self,
         text: &'input str,
     ) -> Matcher<'input, 'builder, E> {
-        let input = Input::new(text).anchored(Anchored::Yes);
-        let mut cache = self.dfa.create_cache();
-        let start = self.dfa.start_state_forward(&mut cache, &input).unwrap();
+        let cache = self.dfa.create_cache();
         Matcher {
             text,
             consumed: 0,
             cache,
-            start,
             dfa: &self.dfa,
             skip_vec: &self.skip_vec,
             _marker: PhantomData,
@@ -81,10 +78,19 @@ pub struct Matcher<'input, 'builder, E> {
     text: &'input str,
     consumed: usize,
     cache: Cache,
-    start: LazyStateID,
     dfa: &'builder DFA,
     skip_vec: &'builder [bool],
     _marker: PhantomData<fn() -> E>,
+}
+
+impl<E> Matcher<'_, '_, E> {
+    /// The largest index among the patterns that match in `state`.
+    fn max_pattern(&self, state: LazyStateID) -> usize {
+        (0..self.dfa.match_len(&self.cache, state))
+            .map(|n| self.dfa.match_pattern(&self.cache, state, n).as_usize())
+            .max()
+            .unwrap()
+    }
 }
 
 impl<'input, E> Iterator for Matcher<'input, '_, E> {
@@ -99,24 +105,31 @@ impl<'input, E> Iterator for Matcher<'input, '_, E> {
                 return None;
             }
 
+            // The lazy DFA may clear its cache at any transition, which invalidates every state
+            // id obtained earlier. So the start state is looked up anew for each token, and a
+            // match is remembered by its pattern index, never by its state id.
             let mut match_ = None;
             'search: {
-                let mut state = self.start;
+                let input = Input::new(text).anchored(Anchored::Yes);
+                let mut state = self
+                    .dfa
+                    .start_state_forward(&mut self.cache, &input)
+                    .unwrap();
                 for (i, byte) in text.bytes().enumerate() {
                     state = self.dfa.next_state(&mut self.cache, state, byte).unwrap();
                     if state.is_match() {
-                        match_ = Some((state, i));
+                        match_ = Some((self.max_pattern(state), i));
                     } else if state.is_dead() {
                         break 'search;
                     }
                 }
                 state = self.dfa.next_eoi_state(&mut self.cache, state).unwrap();
                 if state.is_match() {
-                    match_ = Some((state, text.len()));
+                    match_ = Some((self.max_pattern(state), text.len()));
                 }
             }
 
-            let (match_state, longest_match) = match match_ {
+            let (index, longest_match) = match match_ {
                 Some(match_) => match_,
                 None => {
                     return Some(Err(ParseError::InvalidToken {
@@ -124,14 +137,6 @@ impl<'input, E> Iterator for Matcher<'input, '_, E> {
                     }));
                 }
             };
-            let index = (0..self.dfa.match_len(&self.cache, match_state))
-                .map(|n| {
-                    self.dfa
-                        .match_pattern(&self.cache, match_state, n)
-                        .as_usize()
-                })
-                .max()
-                .unwrap();
 
             let result = &text[..longest_match];
             let remaining = &text[longest_match..];
